@@ -157,7 +157,10 @@ type pubRec struct {
 	key   string
 }
 
-var bodies = []string{`{"n":%d}`, ` {"n": %d, "s":"<b>&amp;é世</b>"} `, `[%d,{"a":null},1e400]`, `"tag-%d"`, `%d`}
+var bodies = []string{`{"n":%d}`, ` {"n": %d, "s":"<b>&amp;é世</b>"} `, `[%d,{"a":null},1e400]`, `"tag-%d"`, `%d`,
+	// bytes whose standard base64 needs the characters '+' and '/' at every alignment
+	// (0x3e '>' / 0x3f '?' / 0x7e '~' / 0xfb.. in UTF-8), and a number beyond float64
+	`{"n":%d,"q":"?~?~?~ a?b ab?c abc? ~~ >>> ÿûÿ"}`, `["?",%d,"~?",9223372036854775807,"???"]`}
 
 func run(sc *scenario, scratch string, seed int64) ([]map[string]any, error) {
 	ctx, cancel := context.WithTimeout(context.Background(), 90*time.Second)
